@@ -139,6 +139,9 @@ def _build_universe_deck(rng, depth=None, macro_p=0.15, tr_p=0.1, fill_tr_p=0.6,
         c.fill = {'u': u, 'tr': None}
         if rng.random() < fill_tr_p:
             m, cls = G.random_motion(rng, rng.choice(rot_classes) if rot_classes else None)
+            if rng.random() < 0.12:
+                # an explicit identity FILL transformation still takes precedence over the cell's TRCL
+                m, cls = D.Motion([0.0, 0.0, 0.0], list(D.IDENT)), 'id'
             c.fill['tr'] = m
             _spell_motion(d, rng, m, cls, c, 'fill')
         if rng.random() < trcl_p:
